@@ -250,7 +250,7 @@ theorem sstep_rank (c : Cfg) (hw : WF c) (sh sh' : Sh) (pc pc' : SPc)
       · simp [h1, h2] at h
   | write m =>
     simp only [sstep] at h
-    by_cases h1 : sh.sock ≠ .open
+    by_cases h1 : sh.sock.wfail = true
     · simp [h1] at h; obtain ⟨rfl, rfl⟩ := h; simp [rankS] <;> omega
     · by_cases h2 : sh.peerReads = true
       · simp [h1, h2] at h; obtain ⟨rfl, rfl⟩ := h; simp [rankS] <;> omega
@@ -516,6 +516,10 @@ theorem rank_env (c : Cfg) (hw : WF c) (s s' : St) (e : Env) (h : estep c s e = 
     rank c s' ≤ rank c s := by
   cases e with
   | peerClose =>
+    simp only [estep] at h
+    by_cases h1 : s.sh.sock = .open ∨ s.sh.sock = .peerShut <;> simp [h1] at h
+    subst h; simp [rank, outBound]
+  | peerShut =>
     simp only [estep] at h
     by_cases h1 : s.sh.sock = .open <;> simp [h1] at h
     subst h; simp [rank, outBound]
